@@ -100,6 +100,25 @@ def build_tls_capture(sc):
         isns.append(tuple(cd.get("isn", (1000 + 77 * i, 5000 + 131 * i))))
     cap = tcp_capture(conns, flows, order=sc.get("order"), isns=isns, seglists=seglists,
                       cap=Capture(ts0=sc.get("ts0", 1_700_000_000_123_456), step=sc.get("step", 1_237)))
+    if sc.get("duplex"):
+        # full-duplex traffic: a later part of a record that spans several segments is captured after a segment of the OTHER direction
+        # that was sent meanwhile (application phase only, where the two directions are independent)
+        import random as _r
+        rng = _r.Random(sc["duplex"])
+        pk, me = list(cap.pkts), list(cap.meta)
+        i = 1
+        while i < len(pk) - 1:
+            a, b = me[i], me[i + 1]
+            if a is not None and b is not None and a.conn == b.conn and a.d != b.d and not a.dup and not b.dup and rng.random() < 0.5:
+                ca = conns[a.conn]
+                prev = me[i - 1]
+                same_rec = prev is not None and prev.conn == a.conn and prev.d == a.d and set(prev.recs) & set(a.recs)
+                if same_rec and all(ca.records[r].kind == "APP" for r in a.recs + b.recs):
+                    pk[i], pk[i + 1] = (pk[i][0], pk[i + 1][1]), (pk[i + 1][0], pk[i][1])      # frames swap places, capture times stay increasing
+                    me[i], me[i + 1] = me[i + 1], me[i]
+                    i += 1
+            i += 1
+        cap.pkts, cap.meta = pk, me
     if sc.get("tsjitter"):
         # capture files need not be chronological (merged interfaces, clock steps): file order is what counts.
         # every packet gets a distinct time, locally out of order with respect to its neighbours
